@@ -95,8 +95,7 @@ class SimSocket:
         kernel.k_write(cur_sim(), self._ofd(), data, what='send')
 
     def send(self, data, flags=0):
-        kernel.k_write(cur_sim(), self._ofd(), data, what='send')
-        return len(data)
+        return kernel.k_write(cur_sim(), self._ofd(), data, what='send', partial=True)
 
     def recv(self, n, flags=0):
         return kernel.k_read(cur_sim(), self._ofd(), n, timeout=self._timeout, what='recv')
